@@ -26,6 +26,7 @@ func cmdFsTrace(args []string) error {
 	names := fl.Int("names", 6, "size of the name pool")
 	depth := fl.Int("depth", 4, "max depth")
 	climb := fl.Bool("climb", true, "include climbing spellings")
+	diskpre := fl.Bool("diskpre", false, "C02 mode")
 	fl.Parse(args)
 	f, err := os.Create(*out)
 	if err != nil {
@@ -39,7 +40,7 @@ func cmdFsTrace(args []string) error {
 	kinds := strings.Split(*backends, ",")
 	tok := 0
 	for i := 0; i < *n; i++ {
-		cfg := &fsx.HistoryConfig{Names: pool, MaxDepth: *depth, Steps: *steps, Backend: kinds[i%len(kinds)], Tmp: *tmp, Climb: *climb}
+		cfg := &fsx.HistoryConfig{Names: pool, MaxDepth: *depth, Steps: *steps, Backend: kinds[i%len(kinds)], Tmp: *tmp, Climb: *climb, DiskPre: *diskpre}
 		if err := fsx.RunHistory(r, cfg, d, tw, &tok); err != nil {
 			return err
 		}
